@@ -549,7 +549,7 @@ Proof. intros Hm. apply PresJ_bind'; [exact Hm | intros _; apply PresJ_ret]. Qed
 (* every operation except remove_child_interface (parents are kept on purpose) and unpeer (no check
    that the path ends are connection points) *)
 Definition closing (o : op) : bool :=
-  match o with ORemoveChild _ _ | OUnpeer _ _ | OPrune8 => false | _ => true end.
+  match o with ORemoveChild _ _ | OUnpeer _ _ | OPrune8 | OPrune9 => false | _ => true end.
 
 Theorem closed_exec ex o cs g r g' tr :
   closing o = true -> run (exec ex o cs) g = (inl r, (g', tr)) -> Closed g tr.
